@@ -1,6 +1,7 @@
 import Driver.Util
 import NutsModel.C01.Verifier
 import NutsModel.C01.Subject
+import NutsModel.C01.CaseVariant
 import NutsModel.Facts.C01
 open Lean Nuts.Drv Nuts.C01 Nuts
 
@@ -160,6 +161,20 @@ def parseCredE (E : Env) (j : Json) : Cred := if jHas j "subjAuth" then credWith
 
 def parsePresE (E : Env) (j : Json) : Pres := { parsePres j with vcs := (jArr j "vcs").map (parseCredE E) }
 
+/-- the harness' encoding of a decoded JSON value: null = leaf, {"o": [[foldedName, child], …]} = object, {"a": [child, …]} = array
+    (fuel = nesting depth; the generator stays far below) -/
+def parseTree : Nat → Json → JTree
+  | 0, _ => .leaf
+  | n + 1, j =>
+    match j.getObjVal? "o" with
+    | .ok (.arr ms) => .obj (ms.toList.map (fun m => match m with
+        | Json.arr #[Json.str name, child] => (name, parseTree n child)
+        | _ => ("", .leaf)))
+    | _ =>
+      match j.getObjVal? "a" with
+      | .ok (.arr xs) => .arr (xs.toList.map (parseTree n))
+      | _ => .leaf
+
 def showOptTime (t : Option Time) : String := match t with | none => "nil" | some x => toString x
 
 def showDate (r : Res (Option Time)) : String :=
@@ -182,6 +197,11 @@ def showBool (b : Bool) : String := if b then "true" else "false"
 
 def step (st : St) (j : Json) : St × List String :=
   match jStr j "op" with
+  | "case-variant" =>
+    let top := (jArr j "top").map (fun p => match p with
+      | Json.arr #[Json.str m, Json.arr fs] => (m, fs.toList.filterMap (fun (x : Json) => x.getStr?.toOption))
+      | _ => ("", []))
+    (st, [if caseVariantMember top (parseTree 64 (jObj j "tree")) then "variant" else "clean"])
   | "rune-tables" =>
     let sp := (List.range 0x3100).filter (fun n => isGoSpace (Char.ofNat n))
     let lo := ((List.range 0x3100).filter (fun n => n ≥ 0x80 && (lowerRune (Char.ofNat n)).toNat < 0x80)).map
